@@ -44,9 +44,9 @@ type Analysis struct {
 	curFrame *Frame
 	// runDefersAt is the RunDefers instruction whose deferred calls are being executed (nil otherwise)
 	runDefersAt ssa.Instruction
-	memo     map[string]*exitState
-	active   map[*ssa.Function]int
-	steps    int
+	memo        map[string]*exitState
+	active      map[*ssa.Function]int
+	steps       int
 	// Frames counts the activations analysed (for evidence).
 	Frames int
 }
